@@ -10,7 +10,7 @@ ALGS = ['sha512', 'sha512', 'sha256', 'sha1', 'md5', 'sha384']
 B64 = 'ABCDEFGHIJKLMNOPQRSTUVWXYZabcdefghijklmnopqrstuvwxyz0123456789-_'
 ACC_OPS = ['get', 'getitem', 'items', 'values', 'keys', 'contains', 'len', 'iter', 'peek_flash', 'get_csrf_token']
 MUT_OPS = ['clear', 'update', 'setdefault', 'pop', 'popitem', 'setitem', 'delitem', 'flash', 'pop_flash',
-           'new_csrf_token', 'invalidate', 'changed']
+           'new_csrf_token', 'invalidate', 'changed', 'ior']
 
 
 def gen_value(rng, depth=0):
@@ -44,7 +44,7 @@ def gen_op(rng, t, mostly_acc=False):
         o['v'] = gen_value(rng, 2)
     elif n in ('getitem', 'contains', 'delitem'):
         o['k'] = rng.choice(KEYS)
-    elif n == 'update':
+    elif n in ('update', 'ior'):
         o['v'] = {rng.choice(KEYS): gen_value(rng, 1) for _ in range(rng.choice([0, 1, 2, 3]))}
     elif n == 'pop':
         o['k'] = rng.choice(KEYS)
@@ -128,6 +128,9 @@ def gen_forged(rng):
     return {'kind': 'forged', 'payload': p}
 
 
+FRACS = [0, 0, 0, 0.25, 0.5, 0.75]
+
+
 def advance(rng, opts):
     to = 1200 if opts.get('defaults') else opts.get('timeout', 1200)
     ri = 0 if opts.get('defaults') else opts.get('reissue', 0)
@@ -136,14 +139,17 @@ def advance(rng, opts):
         c += [ri - 1, ri, ri + 1, ri + 1]
     if to is not None:
         c += [to - 1, to, to, to + 1, to + 1, to + 500]
-    return max(0, rng.choice(c)) if rng.random() < 0.97 else -rng.choice([1, 5, 2000])
+    d = max(0, rng.choice(c)) if rng.random() < 0.97 else -rng.choice([1, 5, 2000])
+    if rng.random() < 0.45:
+        d += rng.choice([0.25, 0.5, 0.75, -0.25, -0.5, -0.75])
+    return d
 
 
 def gen_chain(rng):
     opts = gen_opts(rng)
     n = rng.choice([1, 2, 2, 3, 3, 4, 5, 6])
     malformed = rng.random() < 0.3
-    t = rng.choice([1000000, 1700000000, 5000])
+    t = rng.choice([1000000, 1700000000, 5000]) + rng.choice(FRACS)
     reqs = []
     for i in range(n):
         t = max(0, t + (advance(rng, opts) if i else 0))
@@ -201,6 +207,10 @@ def generate(rng, tier, n):
 SRC_KINDS = {'none', 'last', 'flip', 'trunc', 'append', 'other-secret', 'other-salt', 'other-alg', 'garbage', 'forged', 'stale'}
 
 
+def _okt(t):
+    return isinstance(t, (int, float)) and not isinstance(t, bool) and 0 <= t <= 2 ** 40 and t * 4 == int(t * 4)
+
+
 def valid(case):
     try:
         o = case['opts']
@@ -235,10 +245,10 @@ def valid(case):
                 return False
             if s['kind'] == 'trunc' and not isinstance(s['n'], int):
                 return False
-            if not isinstance(r['t'], int) or r['t'] < 0 or r['t'] > 2 ** 40:
+            if not _okt(r['t']):
                 return False
             for op in r['ops']:
-                if op['op'] not in OPCODE or not isinstance(op['t'], int) or op['t'] < 0 or op['t'] > 2 ** 40:
+                if op['op'] not in OPCODE or not _okt(op['t']):
                     return False
                 if 'k' in op and not isinstance(op['k'], str):
                     return False
@@ -246,7 +256,7 @@ def valid(case):
                     return False
                 if op['op'] in ('new_csrf_token', 'get_csrf_token') and 'tok' not in op:
                     return False
-                if op['op'] == 'update' and not isinstance(op.get('v'), dict):
+                if op['op'] in ('update', 'ior') and not isinstance(op.get('v'), dict):
                     return False
                 if op['op'] in ('setitem', 'flash') and 'v' not in op:
                     return False
@@ -269,13 +279,13 @@ def targeted(broken, disagreements, rng):
     for to, ri in [(1200, 0), (60, 10), (None, None), (5, 120), (60, None)]:
         opts = {'secret': 'seekrit', 'timeout': to, 'reissue': ri, 'soe': True}
         for name in ACC_OPS + MUT_OPS:
-            for dt in sorted({0, 1, (ri or 0), (ri or 0) + 1, (to or 0), (to or 0) + 1}):
+            for dt in sorted({0, 0.75, 1, (ri or 0), (ri or 0) + 0.25, (ri or 0) + 1, (to or 0), (to or 0) + 0.25, (to or 0) + 1}):
                 op = {'op': name, 't': t + dt}
                 if name in ('get', 'setdefault', 'getitem', 'contains', 'delitem', 'pop', 'setitem'):
                     op['k'] = 'a'
                 if name in ('setdefault', 'setitem', 'flash'):
                     op['v'] = 'w'
-                if name == 'update':
+                if name in ('update', 'ior'):
                     op['v'] = {'a': 2}
                 if name in ('new_csrf_token', 'get_csrf_token'):
                     op['tok'] = 'cd' * 20
